@@ -2,7 +2,7 @@ SPECIFICATION Spec
 CONSTANTS
   Interval = 4
   MaxLen = 6
-  Thresholds = {-1, 0, 1, 2, 3, 4}
+  Thresholds <- ThoroughThresholds
   AnswerDelays = {0, 1}
 INVARIANTS TypeOK InvAccuracy InvTiming InvSilentStop InvCounter InvCompleteness InvFinal InvGoneAtClose InvNoTickAfterUser
 PROPERTIES NoPingAfterStop Terminates
